@@ -49,3 +49,19 @@ MODULES += [
     {"name": "Avx512Mat", "ns": "Gen.Avx512Mat", "imports": VEC_IMPORTS + ["GoldilocksVerif.Gen.Avx512"], "needs_globals": True,
      "roots": [("Goldilocks", n) for n in AVX512_MAT], "filter": _kernel512},
 ]
+
+
+EXT_SCALAR = ["zero", "one", "isOne", "copy", "add", "sub", "neg", "mul", "square"]
+# aliased call patterns whose model is generated as well (out==a, out==b, a==b, all three)
+EXT_ALIASES = {
+    "add": [[("result", "a")], [("result", "b")], [("a", "b")], [("result", "a"), ("result", "b")]],
+    "sub": [[("result", "a")], [("result", "b")], [("a", "b")], [("result", "a"), ("result", "b")]],
+    "mul": [[("result", "a")], [("result", "b")], [("a", "b")], [("result", "a"), ("result", "b")]],
+    "neg": [[("result", "a")]],
+    "square": [[("result", "a")]],
+}
+
+MODULES += [
+    {"name": "Ext", "ns": "Gen.Ext", "imports": ["GoldilocksVerif.Isa.X86", "GoldilocksVerif.Model.Region", "GoldilocksVerif.Gen.Scalar"],
+     "roots": [("Goldilocks3", n) for n in EXT_SCALAR], "aliases": EXT_ALIASES},
+]
